@@ -1,0 +1,143 @@
+//! Verification hooks (only compiled with the `verif-hooks` cargo feature).
+#![allow(dead_code, missing_docs, unreachable_pub)]
+use std::ops::{Add, AddAssign, Sub};
+use std::sync::atomic::{AtomicU64, AtomicUsize, Ordering};
+use std::time::Duration;
+
+// ---------------------------------------------------------------- virtual clock
+static NOW_NS: AtomicU64 = AtomicU64::new(1_000_000_000_000);
+static AUTO_ADVANCE_NS: AtomicU64 = AtomicU64::new(0);
+pub fn set_now_ns(ns: u64) { NOW_NS.store(ns, Ordering::SeqCst); }
+pub fn advance_ns(ns: u64) -> u64 { NOW_NS.fetch_add(ns, Ordering::SeqCst) + ns }
+pub fn now_ns() -> u64 { NOW_NS.load(Ordering::SeqCst) }
+pub fn set_auto_advance_ns(ns: u64) { AUTO_ADVANCE_NS.store(ns, Ordering::SeqCst); }
+
+#[derive(Clone, Copy, Debug, PartialEq, Eq, PartialOrd, Ord, Hash)]
+pub struct Instant(u64);
+impl Instant {
+    pub fn now() -> Self { let a = AUTO_ADVANCE_NS.load(Ordering::SeqCst); Instant(NOW_NS.fetch_add(a, Ordering::SeqCst) + a) }
+    pub fn from_ns(ns: u64) -> Self { Instant(ns) }
+    pub fn as_ns(&self) -> u64 { self.0 }
+    pub fn elapsed(&self) -> Duration { Instant::now() - *self }
+    pub fn duration_since(&self, earlier: Instant) -> Duration { *self - earlier }
+    pub fn saturating_duration_since(&self, earlier: Instant) -> Duration { *self - earlier }
+    pub fn checked_sub(&self, d: Duration) -> Option<Instant> { u64::try_from(d.as_nanos()).ok().and_then(|n| self.0.checked_sub(n)).map(Instant) }
+    pub fn checked_add(&self, d: Duration) -> Option<Instant> { u64::try_from(d.as_nanos()).ok().and_then(|n| self.0.checked_add(n)).map(Instant) }
+}
+impl Sub<Instant> for Instant { type Output = Duration; fn sub(self, o: Instant) -> Duration { Duration::from_nanos(self.0.saturating_sub(o.0)) } }
+impl Add<Duration> for Instant { type Output = Instant; fn add(self, d: Duration) -> Instant { self.checked_add(d).expect("overflow") } }
+impl AddAssign<Duration> for Instant { fn add_assign(&mut self, d: Duration) { *self = *self + d; } }
+impl Sub<Duration> for Instant { type Output = Instant; fn sub(self, d: Duration) -> Instant { self.checked_sub(d).expect("underflow") } }
+
+// ---------------------------------------------------------------- sync shim
+#[derive(Clone, Copy, Debug, PartialEq, Eq)]
+pub enum Ev { Acquire, Acquired, Release, ReadAcquire, ReadAcquired, ReadRelease, Notify, WaitBegin, WaitEnd, Spawn, JoinBegin, JoinEnd, ThreadStart, ThreadExit }
+pub type Observer = fn(Ev, &'static str, usize);
+static OBSERVER: std::sync::RwLock<Option<Observer>> = std::sync::RwLock::new(None);
+pub fn set_observer(o: Option<Observer>) { *OBSERVER.write().unwrap() = o; }
+fn emit(ev: Ev, class: &'static str, id: usize) { let o = *OBSERVER.read().unwrap(); if let Some(o) = o { o(ev, class, id) } }
+static NEXT_ID: AtomicUsize = AtomicUsize::new(1);
+fn fresh() -> usize { NEXT_ID.fetch_add(1, Ordering::SeqCst) }
+
+pub mod sync {
+    use super::{emit, fresh, Ev};
+    pub use std::sync::{Arc, LockResult, OnceLock, PoisonError, Weak, WaitTimeoutResult};
+    use std::ops::{Deref, DerefMut};
+    use std::time::Duration;
+
+    pub struct Mutex<T> { inner: std::sync::Mutex<T>, id: usize }
+    pub struct MutexGuard<'a, T> { inner: Option<std::sync::MutexGuard<'a, T>>, class: &'static str, id: usize }
+    impl<T> Mutex<T> {
+        pub fn new(t: T) -> Self { Mutex { inner: std::sync::Mutex::new(t), id: fresh() } }
+        fn class() -> &'static str { std::any::type_name::<T>() }
+        pub fn lock(&self) -> LockResult<MutexGuard<'_, T>> {
+            emit(Ev::Acquire, Self::class(), self.id);
+            let r = self.inner.lock();
+            emit(Ev::Acquired, Self::class(), self.id);
+            match r {
+                Ok(g) => Ok(MutexGuard { inner: Some(g), class: Self::class(), id: self.id }),
+                Err(p) => Err(PoisonError::new(MutexGuard { inner: Some(p.into_inner()), class: Self::class(), id: self.id })),
+            }
+        }
+        pub fn is_poisoned(&self) -> bool { self.inner.is_poisoned() }
+        pub fn try_lock(&self) -> std::sync::TryLockResult<MutexGuard<'_, T>> {
+            match self.inner.try_lock() {
+                Ok(g) => { emit(Ev::Acquired, Self::class(), self.id); Ok(MutexGuard { inner: Some(g), class: Self::class(), id: self.id }) }
+                Err(std::sync::TryLockError::WouldBlock) => Err(std::sync::TryLockError::WouldBlock),
+                Err(std::sync::TryLockError::Poisoned(p)) => {
+                    emit(Ev::Acquired, Self::class(), self.id);
+                    Err(std::sync::TryLockError::Poisoned(PoisonError::new(MutexGuard { inner: Some(p.into_inner()), class: Self::class(), id: self.id })))
+                }
+            }
+        }
+    }
+    impl<T: Default> Default for Mutex<T> { fn default() -> Self { Mutex::new(T::default()) } }
+    impl<T> Deref for MutexGuard<'_, T> { type Target = T; fn deref(&self) -> &T { self.inner.as_ref().unwrap() } }
+    impl<T> DerefMut for MutexGuard<'_, T> { fn deref_mut(&mut self) -> &mut T { self.inner.as_mut().unwrap() } }
+    impl<T> Drop for MutexGuard<'_, T> { fn drop(&mut self) { if self.inner.take().is_some() { emit(Ev::Release, self.class, self.id); } } }
+
+    pub struct RwLock<T> { inner: std::sync::RwLock<T>, id: usize }
+    pub struct RwLockWriteGuard<'a, T> { inner: Option<std::sync::RwLockWriteGuard<'a, T>>, class: &'static str, id: usize }
+    pub struct RwLockReadGuard<'a, T> { inner: Option<std::sync::RwLockReadGuard<'a, T>>, class: &'static str, id: usize }
+    impl<T> RwLock<T> {
+        pub fn new(t: T) -> Self { RwLock { inner: std::sync::RwLock::new(t), id: fresh() } }
+        fn class() -> &'static str { std::any::type_name::<T>() }
+        pub fn write(&self) -> LockResult<RwLockWriteGuard<'_, T>> {
+            emit(Ev::Acquire, Self::class(), self.id);
+            let r = self.inner.write();
+            emit(Ev::Acquired, Self::class(), self.id);
+            match r {
+                Ok(g) => Ok(RwLockWriteGuard { inner: Some(g), class: Self::class(), id: self.id }),
+                Err(p) => Err(PoisonError::new(RwLockWriteGuard { inner: Some(p.into_inner()), class: Self::class(), id: self.id })),
+            }
+        }
+        pub fn read(&self) -> LockResult<RwLockReadGuard<'_, T>> {
+            emit(Ev::ReadAcquire, Self::class(), self.id);
+            let r = self.inner.read();
+            emit(Ev::ReadAcquired, Self::class(), self.id);
+            match r {
+                Ok(g) => Ok(RwLockReadGuard { inner: Some(g), class: Self::class(), id: self.id }),
+                Err(p) => Err(PoisonError::new(RwLockReadGuard { inner: Some(p.into_inner()), class: Self::class(), id: self.id })),
+            }
+        }
+    }
+    impl<T: std::fmt::Debug> std::fmt::Debug for RwLock<T> { fn fmt(&self, f: &mut std::fmt::Formatter<'_>) -> std::fmt::Result { self.inner.fmt(f) } }
+    impl<T> Deref for RwLockWriteGuard<'_, T> { type Target = T; fn deref(&self) -> &T { self.inner.as_ref().unwrap() } }
+    impl<T> DerefMut for RwLockWriteGuard<'_, T> { fn deref_mut(&mut self) -> &mut T { self.inner.as_mut().unwrap() } }
+    impl<T> Drop for RwLockWriteGuard<'_, T> { fn drop(&mut self) { if self.inner.take().is_some() { emit(Ev::Release, self.class, self.id); } } }
+    impl<T> Deref for RwLockReadGuard<'_, T> { type Target = T; fn deref(&self) -> &T { self.inner.as_ref().unwrap() } }
+    impl<T> Drop for RwLockReadGuard<'_, T> { fn drop(&mut self) { if self.inner.take().is_some() { emit(Ev::ReadRelease, self.class, self.id); } } }
+
+    pub struct Condvar { inner: std::sync::Condvar, id: usize }
+    impl Condvar {
+        pub fn new() -> Self { Condvar { inner: std::sync::Condvar::new(), id: fresh() } }
+        pub fn notify_one(&self) { emit(Ev::Notify, "Condvar", self.id); self.inner.notify_one() }
+        pub fn wait_timeout_while<'a, T, F: FnMut(&mut T) -> bool>(&self, mut guard: MutexGuard<'a, T>, dur: Duration, condition: F)
+            -> LockResult<(MutexGuard<'a, T>, WaitTimeoutResult)> {
+            let (class, id) = (guard.class, guard.id);
+            let g = guard.inner.take().unwrap();
+            emit(Ev::WaitBegin, class, id);
+            let r = self.inner.wait_timeout_while(g, dur, condition);
+            emit(Ev::WaitEnd, class, id);
+            match r {
+                Ok((g, t)) => Ok((MutexGuard { inner: Some(g), class, id }, t)),
+                Err(p) => { let (g, t) = p.into_inner(); Err(PoisonError::new((MutexGuard { inner: Some(g), class, id }, t))) }
+            }
+        }
+    }
+}
+
+pub mod thread {
+    use super::{emit, fresh, Ev};
+    pub use std::thread::{panicking, sleep};
+    pub struct JoinHandle<T> { inner: std::thread::JoinHandle<T>, id: usize }
+    pub fn spawn<F: FnOnce() -> T + Send + 'static, T: Send + 'static>(f: F) -> JoinHandle<T> {
+        let id = fresh();
+        emit(Ev::Spawn, "thread", id);
+        let inner = std::thread::spawn(move || { emit(Ev::ThreadStart, "thread", id); let r = f(); emit(Ev::ThreadExit, "thread", id); r });
+        JoinHandle { inner, id }
+    }
+    impl<T> JoinHandle<T> {
+        pub fn join(self) -> std::thread::Result<T> { emit(Ev::JoinBegin, "thread", self.id); let r = self.inner.join(); emit(Ev::JoinEnd, "thread", self.id); r }
+    }
+}
